@@ -490,7 +490,7 @@ def coverage_level2(ck, res):
             distinct.add(json.dumps([c["reqs"], c["ops"], c.get("attempts")], sort_keys=True))
     ck.coverage["evaluations"] += len(cases)
     ck.coverage["distinct_nontrivial"] += len(distinct)
-    ck.coverage["rule"] += ("HTTP scripts: the real PushStreamV2 (Loki JSON) and PushV2 (Zipkin JSON) handlers over five real services, RetryAttempts 0..3, "
+    ck.coverage["rule"] += ("HTTP scripts: the real PushStreamV2 (Loki JSON and snappy protobuf), PushV2 (Zipkin JSON), WriteStreamV2 (Prometheus remote write), OTLPPushV2 and PushProfileV2 (pprof, binary/octet-stream) handlers over five real services, RetryAttempts 0..3, "
                             "1..4 pushes (one in ten with a body the parser rejects), 6..19 operations (push, PlanFlush, let a worker call Do, return of Do with success 2/5) then a drain; "
                             "non-trivial = RetryAttempts >= 1, at least one failed INSERT and one answer; distinct by content. ")
     ck.extra.setdefault("input_distribution", {}).update({"http_retry_attempts": att, "http_routes": routes, "http_operation_kinds": opk,
